@@ -1559,9 +1559,15 @@ class UBCalculation:
         if abs(sc - 1.0) < SMALL:
             return None, None
         h, k, l = hkl
-        ref_a1 = sc * a1 if abs(h) > SMALL else a1
-        ref_a2 = sc * a2 if abs(k) > SMALL else a2
-        ref_a3 = sc * a3 if abs(l) > SMALL else a3
+        scale_a1, scale_a2, scale_a3 = abs(h) > SMALL, abs(k) > SMALL, abs(l) > SMALL
+        # Cell lengths tied together by the crystal system are rescaled together.
+        if self.crystal.system in ("Cubic", "Rhombohedral"):
+            scale_a1 = scale_a2 = scale_a3 = scale_a1 or scale_a2 or scale_a3
+        elif self.crystal.system in ("Tetragonal", "Hexagonal"):
+            scale_a1 = scale_a2 = scale_a1 or scale_a2
+        ref_a1 = sc * a1 if scale_a1 else a1
+        ref_a2 = sc * a2 if scale_a2 else a2
+        ref_a3 = sc * a3 if scale_a3 else a3
         return sc, (
             name,
             self.crystal.system,
